@@ -29,8 +29,12 @@ SetupClass(s, maxdeg, nv) ==
     [] s = "pst13" -> IF nv = NONE \/ nv < 1 \/ maxdeg < 1 THEN "refuse" ELSE "ok"
     [] s = "hyrax" -> IF nv = NONE \/ nv % 2 = 1 THEN "refuse"
                       ELSE IF nv = 0 THEN "any" ELSE "ok"
-    [] s = "brakedown" -> IF nv = NONE THEN "refuse" ELSE IF nv = 0 THEN "any" ELSE "ok"
-    [] OTHER -> "ok"           \* Ligero: parameters do not depend on the request
+    \* multilinear linear codes: a polynomial in zero variables has no matrix layout (code fact
+    \* LinCodeRefusesZeroVars: before D14 `commit` succeeded and `open` aborted)
+    [] s = "brakedown" -> IF nv = NONE THEN "refuse"
+                          ELSE IF nv = 0 THEN (IF LinCodeRefusesZeroVars THEN "refuse" ELSE "any") ELSE "ok"
+    [] s = "ligero_ml" -> IF nv = 0 THEN (IF LinCodeRefusesZeroVars THEN "refuse" ELSE "any") ELSE "ok"
+    [] OTHER -> "ok"           \* univariate Ligero: parameters do not depend on the request
 
 \* the maximum degree the parameters report
 EffMax(s, maxdeg) == IF s = "ipa" THEN RoundIpa(maxdeg) ELSE maxdeg
@@ -71,10 +75,10 @@ HidingClass(s, keys, p, rng) ==
   IF h = NONE THEN "ok"
   ELSE CASE s = "marlin" ->
               IF ~rng \/ h > keys.hid THEN "refuse"
-              ELSE IF h = 0 THEN (IF KzgAcceptsHidingZero THEN "any" ELSE "refuse") ELSE "ok"
+              ELSE IF h = 0 THEN (IF KzgAcceptsHidingZero THEN "zero_hid" ELSE "refuse") ELSE "ok"
          [] s = "sonic" ->
               IF ~rng \/ h > keys.hid \/ (p.bound # NONE /\ h > p.bound) THEN "refuse"
-              ELSE IF h = 0 THEN (IF KzgAcceptsHidingZero THEN "any" ELSE "refuse") ELSE "ok"
+              ELSE IF h = 0 THEN (IF KzgAcceptsHidingZero THEN "zero_hid" ELSE "refuse") ELSE "ok"
          [] s = "ipa" -> IF ~rng THEN "refuse" ELSE IF h = 0 THEN "any" ELSE "ok"
          [] s = "pst13" -> IF ~rng \/ h = 0 \/ h > keys.sup THEN "refuse" ELSE "ok"
          [] OTHER -> "any"
@@ -90,7 +94,11 @@ SizeClass(s, nv, keys, p) ==
     [] s = "ligero_ml" -> IF p.cls = "nv" /\ p.deg # nv THEN "any" ELSE "ok"
     [] OTHER -> "ok"
 
+\* "zero_hid": a hiding bound of zero, which the property (C17) lists among the requests to refuse and
+\* MarlinPST13 refuses, but KZG10::commit accepts (known finding D13: its zero test looks at the blinding
+\* polynomial's degree h + 1)
 Worst(S) == IF "refuse" \in S THEN "refuse"
+            ELSE IF "zero_hid" \in S THEN "zero_hid"
             ELSE IF "panics" \in S THEN "panics"
             ELSE IF "any" \in S THEN "any" ELSE "ok"
 
@@ -106,9 +114,9 @@ CommitClass(s, maxdeg, nv, keys, ps, rng) ==
 
 \* The property-level expectation for a class: a defect the code-facts know about
 \* ("panics") is still in-domain for the property (C01/C17 demand success).
-Expect(c) == IF c = "panics" THEN "ok" ELSE c
+Expect(c) == IF c = "panics" THEN "ok" ELSE IF c = "zero_hid" THEN "refuse" ELSE c
 \* what the code-facts model predicts the code does
-Predict(c) == IF c = "panics" THEN "refuse" ELSE c
+Predict(c) == IF c = "panics" THEN "refuse" ELSE IF c = "zero_hid" THEN "ok" ELSE c
 
 \* opening polynomials that were committed successfully: every trait scheme re-runs the
 \* same admission; Hyrax additionally needs an RNG, IPA needs one when some polynomial hides
